@@ -246,7 +246,7 @@ def r_ampm(chk, P, tier):
 def r_long_names(chk, P, tier):
     """the long-name scanners for months and weekdays are siblings: after the short name both compare the suffix the same way (length test, then
     ASCII-case-insensitive equality)"""
-    chk.rule("SIB.long_names", "short_or_long_month0 and short_or_long_weekday match the long-name suffix through the same calls (len guard + eq_ignore_ascii_case)", floor=2)
+    chk.rule("SIB.long_names", "short_or_long_month0 and short_or_long_weekday match the long-name suffix through the same calls (len guard against the suffix length only + eq_ignore_ascii_case)", floor=4)
     a, b = "format::scan::short_or_long_month0", "format::scan::short_or_long_weekday"
 
     def sig(fn):
@@ -254,6 +254,37 @@ def r_long_names(chk, P, tier):
     sa, sb = sig(a), sig(b)
     chk.expect(sa == sb, "same calls", "the two long-name scanners differ: month uses %s, weekday uses %s" % (sa, sb), loc=P.loc(b))
     chk.expect("eq_ignore_ascii_case" in sa and "len" in sa, "case-insensitive with length guard", "long-name suffix comparison is %s (expected len guard + eq_ignore_ascii_case: the writer's case is not the only accepted one)" % sa, loc=P.loc(a))
+
+    # the only length test is against the suffix's own length: a constant cut-off on the remaining input (e.g. `s.len() < 2`) skips the
+    # one-letter suffixes of "June" / "July" ("e", "y")
+    for fn in (a, b):
+        consts = set()
+        for p in Sym(P, fn).paths():
+            for c in p.conds:
+                for x in walk_terms(c[1]):
+                    if x[0] == "bin" and x[1] in ("Ge", "Gt", "Lt", "Le", "Eq", "Ne"):
+                        for u, v in ((x[2], x[3]), (x[3], x[2])):
+                            if v[0] == "const" and any(is_call(y, suffix="<impl str>::len") for y in walk_terms(u)):
+                                consts.add((x[1], pp(v)))
+        # harmless cut-offs: those below the shortest non-empty suffix of the table (read from the table constant in the same conditions)
+        lens = set()
+        for p in Sym(P, fn).paths():
+            for c in p.conds:
+                for x in walk_terms(c[1]):
+                    if x[0] == "const" and isinstance(x[1], tuple) and x[1] and all(isinstance(e, tuple) and all(isinstance(b_, int) for b_ in e) for e in x[1]):
+                        lens |= {len(e) for e in x[1] if len(e) > 0}
+        if not lens:
+            raise AnchorLost("suffix table of " + fn)
+        minl = min(lens)
+
+        def harmless(op, k):
+            try:
+                k = int(k)
+            except ValueError:
+                return False
+            return (op in ("Lt", "Ge") and k <= minl) or (op in ("Le", "Gt") and k < minl) or (op in ("Eq", "Ne") and k == 0)
+        consts = {(op, k) for op, k in consts if not harmless(op, k)}
+        chk.expect(not consts, fn.split("::")[-1] + " length tests", "%s compares the remaining input's length with a constant %s (expected only the suffix's own length)" % (fn, sorted(consts)), loc=P.loc(fn))
 
 
 def r_parse_entry(chk, P, tier):
